@@ -12,6 +12,7 @@ import random
 import anncases
 import annhist
 import core
+import targets
 
 PROP = "C11"
 PREFIXES = ("C11.", "crash")
@@ -181,8 +182,11 @@ def run(ctx: core.Ctx) -> int:
                 r["detail"] = json.loads(r["detail"])
             except ValueError:
                 pass
+    # Targets.tla: the whole decision table "kind of file x what FILE.license is x dot-license option x --style" replayed
+    tg = targets.stage(ctx, PREFIXES)
+    mc_viol = list(mc_viol) + tg["mc_violations"]
     return ctx.finish(
-        evaluations=len(events),
+        evaluations=len(events) + len(tg["events"]),
         distinct_nontrivial=len({e["label"] for e in events if e["exit"] != 0}),
         rule="one invocation over up to three files: every file set x failing subset (TLC) x {terminator in holder, "
              "terminator in holder} x {no, --force-dot-license, --fallback-dot-license} x both argument orders; "
